@@ -93,6 +93,11 @@ class Ctx:
     def quick(self):
         return self.tier == "quick"
 
+    def require(self, what, cond):
+        """guard against a vacuous oracle (e.g. a harness bug swallowed by a handler meant for the implementation's errors)"""
+        if not cond:
+            self.fail("correspondence", f"{self.pid}/harness/vacuous", f"the harness did not exercise what it claims: {what}")
+
     def budget_left(self, total):
         return total - (time.time() - self.t0)
 
